@@ -259,6 +259,28 @@ func c11Sig(fn, msg string) string {
 	return "other:" + fn
 }
 
+// c11Cause classifies an argument list by the feature that known findings about
+// type prediction hinge on, so that a recorded finding suppresses only its own
+// root cause.
+func c11Cause(args []cty.Value) string {
+	for _, a := range args {
+		u, _ := a.Unmark()
+		if u.IsNull() {
+			return "null-argument"
+		}
+	}
+	for _, a := range args {
+		u, _ := a.Unmark()
+		if u.IsKnown() && u.Type().IsCollectionType() && u.Type().ElementType() == cty.DynamicPseudoType && u.LengthInt() == 0 {
+			return "empty-dynamic-collection"
+		}
+	}
+	if !c11WhollyKnown(args) {
+		return "unknown-argument"
+	}
+	return "known-arguments"
+}
+
 func c11One(ctx *Ctx, fn c11Fn, args []cty.Value) {
 	key := fn.name + " " + c11Wire(args)
 	lit := "stdlib." + fn.name + ".Call(" + c11GoArgs(args) + ")"
@@ -327,7 +349,7 @@ func c11One(ctx *Ctx, fn c11Fn, args []cty.Value) {
 			ctx.Tag("type-only-error-with-unknown-args")
 		}
 	} else if !conformsTo(res.Type(), rt) {
-		ctx.Fail(Failure{Site: "conforms-types", Sig: "result-not-conforming-to-type-prediction:" + fn.name, What: "result type " + res.Type().GoString() + " does not conform to ReturnType(types) = " + rt.GoString(), Input: key, GoLit: lit, Outcome: res.GoString()})
+		ctx.Fail(Failure{Site: "conforms-types", Sig: "result-not-conforming-to-type-prediction:" + fn.name + ":" + c11Cause(args), What: "result type " + res.Type().GoString() + " does not conform to ReturnType(types) = " + rt.GoString(), Input: key, GoLit: lit, Outcome: res.GoString()})
 	}
 }
 
